@@ -215,16 +215,37 @@ class JumpToStageHandler(StabilizeHandler[JumpToStage]):
                 [s.ref_id for s in downstream_stages],
             )
 
+            # Stages other than the target that this jump must trigger (see below)
+            also_start: list[StageExecution] = []
+
             # Handle source stage based on jump direction
             if not is_backward_jump:
                 # Forward jump: mark all stages between source and target SKIPPED
                 end_time = self.current_time_millis()
+                completed_refs = {source_stage.ref_id}
                 for skipped in get_skipped_stages(execution, source_stage, target_stage):
                     if skipped.status == WorkflowStatus.NOT_STARTED:
                         logger.debug("Marking skipped stage: %s", skipped.ref_id)
                         mutations.append(
                             (skipped.id, partial(reset_stage_to_skipped, end_time=end_time))
                         )
+                        completed_refs.add(skipped.ref_id)
+
+                # A forward jump completes its source (SUCCEEDED) and the skipped
+                # stages without going through CompleteStage, so nobody calls
+                # start_next() for them. A stage outside the target's chain that
+                # depends on one of them (a fan-in with another branch) would stay
+                # NOT_STARTED forever: trigger it here, like start_next() would.
+                target_chain = {target_stage.ref_id} | {s.ref_id for s in downstream_stages}
+                for candidate in execution.stages:
+                    if (
+                        candidate.status == WorkflowStatus.NOT_STARTED
+                        and candidate.ref_id not in target_chain
+                        and candidate.ref_id not in completed_refs
+                        and candidate.parent_stage_id is None
+                        and completed_refs & set(candidate.requisite_stage_ref_ids)
+                    ):
+                        also_start.append(candidate)
 
             # Get jump count for context updates
             jump_count = source_stage.context.get("_jump_count", 0)
@@ -322,8 +343,9 @@ class JumpToStageHandler(StabilizeHandler[JumpToStage]):
                     StartStage(
                         execution_type=message.execution_type,
                         execution_id=message.execution_id,
-                        stage_id=target_stage.id,
+                        stage_id=stage_to_start.id,
                     )
+                    for stage_to_start in [target_stage, *also_start]
                 ],
             )
 
